@@ -383,6 +383,28 @@ def rule_pitch_chain(ctx):
         ctx.ob('C14.keys', f'{f.fq}', full(f.node).endswith(want), f'{mn} must be `{want}`', f.node, mod)
 
 
+def rule_detune(ctx):
+    ctx.rule('C14.keys', 'harmonic and detune are applied where the frequency is fixed for sending: every function that collects the parameters '
+                         'of a pitch-bearing event (_get_msg_params / _update_msg_params) first stores self[\'freq\'] = self._detuned_freq()')
+    m = ctx.repo.module('sc3.seq.event')
+    n = 0
+    for q, f in sorted(m.functions.items()):
+        collect = [c for c in U.calls(f.node) if U.is_self_attr(c.func) and c.func.attr in ('_get_msg_params', '_update_msg_params')]
+        if not collect or f.cls is None or f.name in ('_get_msg_params', '_update_msg_params'):
+            continue
+        pitch = any(k.arg == 'partial_events' and 'PitchKeys' in norm(k.value) for c_ in ctx.repo.mro(f.cls) for k in c_.node.keywords)
+        if not pitch:
+            continue
+        n += 1
+        stores = [x for x in walk_local(f.node) if isinstance(x, ast.Assign) and norm(x.value).endswith('self._detuned_freq()')
+                  and any(isinstance(t, ast.Subscript) and norm(t.value) == 'self' and U.literal(t.slice) == 'freq' for t in x.targets)]
+        ok = bool(stores) and min(x.lineno for x in stores) < min(c.lineno for c in collect)
+        ctx.ob('C14.keys', f'{f.fq}:detuned-before-params', ok,
+               f'{q} collects the event parameters with {norm(collect[0])} without storing the detuned frequency first: the command carries '
+               f'freq without harmonic and detune', f.node, m)
+    ctx.require(n >= 3, 'C14.keys', f'only {n} parameter-collecting event functions found')
+
+
 def rule_par(ctx):
     ctx.rule('C14.par', 'Ppar keeps a local clock: after every event it yields, `now` advances to exactly the time whose distance from '
                         '`now` was emitted as that event\'s delta, and that time was read from the queue in the same block')
@@ -490,6 +512,7 @@ def run(ctx):
     c07.rule_tag(sub_c07)
     rule_accum(ctx)
     rule_pitch_chain(ctx)
+    rule_detune(ctx)
     rule_mono(ctx)
     rule_scale(ctx)
     rule_par(ctx)
@@ -501,6 +524,8 @@ def run(ctx):
 
 
 MUTANTS = [
+    dict(rule='C14.keys', name='mono set events send the frequency without harmonic and detune (seed C14-g)', file='sc3/seq/event.py',
+         old="        self['freq'] = self._detuned_freq()\n        self['server'] = self('server')\n        msg = ['/n_set',", new="        self['server'] = self('server')\n        msg = ['/n_set',"),
     dict(rule='C14.par', name='Pdur floors the remaining time of an int delta (fix reverted)', file='sc3/seq/patterns/filterpatterns.py',
          old="                    if not isinstance(delta, int):  # int floors it.\n                        remaining = type(delta)(remaining)\n                    inevent['delta'] = remaining\n",
          new="                    inevent['delta'] = type(delta)(remaining)\n"),
